@@ -14,6 +14,7 @@ import LbfgsbVerif.Model.Subspace
 import LbfgsbVerif.Model.FD
 import LbfgsbVerif.Model.Dcsrch
 import LbfgsbVerif.Model.Utils
+import LbfgsbVerif.Model.Bounds
 import Std.Data.HashMap
 
 open Lbfgsb
@@ -332,6 +333,26 @@ def handleShell (c : Ctx) (toks : List String) : Option (Ctx × List String) :=
     let pairs := ans.map fun v => (v.getD 0 0.0, v.getD 1 0.0)
     let tr := Dcsrch.trace (Dcsrch.DC.new ftol gtol xtol stpmin stpmax) stp0 .start pairs
     some (c, ["dcsrch " ++ ";".intercalate (tr.map fun (s, t) => s!"{showF s}:{taskCode t}")])
+  | ["getbounds", x0, lo, hi] => do
+    let x0 ← parseV x0
+    -- `lo`/`hi`: "none" (bounds is None) or comma-separated entries, `N` = None, `-` = empty list
+    let parseOpt (s : String) : Option (List (Option Float)) :=
+      if s == "-" then some [] else (s.splitOn ",").mapM fun t => if t == "N" then some none else (parseF t).map some
+    let b ← if lo == "none" then some none else do
+      let l ← parseOpt lo; let h ← parseOpt hi
+      if l.length ≠ h.length then none else some (some (l.zip h))
+    let negInf : Float := -(1.0 / 0.0)
+    let posInf : Float := 1.0 / 0.0
+    match getBounds negInf posInf x0 b with
+    | .ok (lb, ub) => some (c, [s!"getbounds ok {showV lb} {showV ub}"])
+    | .error .emptyX => some (c, ["getbounds err emptyX"])
+    | .error .lenMismatch => some (c, ["getbounds err lenMismatch"])
+    | .error .lbGtUb => some (c, ["getbounds err lbGtUb"])
+    | .error .x0Outside => some (c, ["getbounds err x0Outside"])
+  | ["maxstep", x, d, lb, ub, maxStep, nit] => do
+    let x ← parseV x; let d ← parseV d; let lb ← parseV lb; let ub ← parseV ub
+    let maxStep ← parseF maxStep; let nit ← nit.toNat?
+    some (c, [s!"maxstep {showF (maxAllowedStep x d lb ub maxStep nit)}"])
   | ["unitscale", x, g, lb, ub] => do
     let x ← parseV x; let g ← parseV g; let lb ← parseV lb; let ub ← parseV ub
     some (c, [s!"unitscale {showF (unitScaling x g lb ub)}"])
